@@ -580,4 +580,152 @@ def orderedB : List Val → Bool
   | [] => true
   | a :: rest => rest.all (fun b => !less b a) && orderedB rest
 
+/-! ## error objects: what Go can see of the wrapped `error` (`object/error.go`)
+
+An `*object.Error` holds a Go `error` and a raised flag.  Beyond its message a Go error has an
+identity (what `==` on the interface value compares: the pointer of an `errors.New` /
+`fmt.Errorf` / `errors.Join` / `errz.*Error` value), a Go type, and the errors it wraps
+(`Unwrap`), which is what `errors.Is` / `errors.As` and the script functions `errors.is` /
+`errors.as` consult.  `Error.Equals` and `Error.Compare` consult none of that: they read
+`Message()` and `raised` only.  The model keeps the provenance so that this is a statement. -/
+
+/-- a Go `error` value: identity, Go type (0 `errors.New`, 1 `fmt.Errorf` with `%w`, 2 `errors.Join`,
+    3/4/5 `errz.EvalError/ArgsError/TypeError`), message bytes, and the identities of all errors
+    reachable from it through `Unwrap` -/
+structure GoErr where
+  id : Nat
+  cls : Nat
+  msg : List Nat
+  wraps : List Nat
+  deriving DecidableEq, Repr
+
+/-- an `*object.Error` -/
+structure ErrObj where
+  go : GoErr
+  raised : Bool
+  deriving DecidableEq, Repr
+
+/-- `errors.Is(a, b)` for errors without an `Is` method: `b` is `a` or one of the errors `a` wraps.
+    Directional: a wrapper matches what it wraps, never the other way round. -/
+def goIs (a b : GoErr) : Bool := a.id == b.id || a.wraps.contains b.id
+
+/-- the script value an error object presents: `Message()` and `IsRaised()` -/
+def ErrObj.val (e : ErrObj) : Val := .err e.go.msg e.raised
+
+/-- `Error.Equals` as the code is: equal message and equal raised flag -/
+def errObjEquals (a b : ErrObj) : Bool := a.go.msg == b.go.msg && a.raised == b.raised
+
+/-- `Error.Compare` as the code is -/
+def errObjCompare (a b : ErrObj) : Int := errCmp a.go.msg a.raised b.go.msg b.raised
+
+/-- an `==` on errors that ALSO accepts `errors.Is(a, b)` (not what the code does: kept to state
+    why the provenance must not enter `==`, see `eq_consulting_is_not_symmetric`) -/
+def errObjEqualsIs (a b : ErrObj) : Bool :=
+  a.raised == b.raised && (a.go.msg == b.go.msg || goIs a.go b.go)
+
+/-! ## containers with a history (`object/set.go`, `object/map.go`)
+
+A set or map OBJECT is reached through a sequence of mutations — `s.add(x)` (`Set.Add`),
+`s.remove(x)` (`Set.Remove`), `delete(s, x)` (`Set.DelItem`), `s.clear()`; `m[k] = v`
+(`Map.SetItem`/`Set`), `delete(m, k)` (`Map.DelItem`/`Delete`), `m.pop(k)`, `m.setdefault(k, v)`,
+`m.clear()` — interleaved with observations (printing, iterating, `list()`, `sorted()`, `keys()`,
+JSON, `==`, `in`, `len`).  The code keeps ONE piece of state per object, the Go map `items`; the
+order-based view (`SortedItems`/`SortedKeys`: iteration, `list`, `sorted`, printing) is recomputed
+from it on every call and the hash-based view (`in`, `len`, truthiness) reads it directly.  The
+model state is the canonical item list; an observation leaves it unchanged. -/
+
+inductive SetOp (α : Type) where
+  | add (x : α)
+  | remove (x : α)
+  | del (x : α)
+  | clear
+  | observe
+  deriving Repr
+
+/-- one operation on a set: the new canonical item list and whether the call succeeded
+    (`false` = "unhashable" type error, set unchanged) -/
+def setStep {α : Type} (hashable : α → Bool) (key : α → HashKey) (s : List α) : SetOp α → List α × Bool
+  | .add x => if hashable x then (setInsert key x s, true) else (s, false)
+  | .remove x => if hashable x then (s.filter (fun y => decide (key y ≠ key x)), true) else (s, false)
+  | .del x => if hashable x then (s.filter (fun y => decide (key y ≠ key x)), true) else (s, false)
+  | .clear => ([], true)
+  | .observe => (s, true)
+
+/-- the set after a history -/
+def setRun {α : Type} (hashable : α → Bool) (key : α → HashKey) (s : List α) (ops : List (SetOp α)) : List α :=
+  ops.foldl (fun s o => (setStep hashable key s o).1) s
+
+/-- the state and the success flag after every operation of a history -/
+def setTrace {α : Type} (hashable : α → Bool) (key : α → HashKey) : List α → List (SetOp α) → List (List α × Bool)
+  | _, [] => []
+  | s, o :: ops => setStep hashable key s o :: setTrace hashable key (setStep hashable key s o).1 ops
+
+def isHashable (v : Val) : Bool := (hashKey v).isSome
+
+/-- Impl: a history on a set of values -/
+def setHist (s : List Val) (ops : List (SetOp Val)) : List Val := setRun isHashable keyOf s ops
+
+/-- Spec of membership after a history: the last operation that mentions the key decides
+    (`add` → present, `remove`/`delete` → absent, `clear` → absent for every key); operations
+    with an unhashable argument and observations decide nothing -/
+def specMember (init : List Val) (ops : List (SetOp Val)) (k : HashKey) : Bool :=
+  ops.foldl (fun m o =>
+    match o with
+    | .add x => if hashKey x = some k then true else m
+    | .remove x => if hashKey x = some k then false else m
+    | .del x => if hashKey x = some k then false else m
+    | .clear => false
+    | .observe => m) (init.any (fun y => decide (keyOf y = k)))
+
+inductive MapOp (α : Type) where
+  | set (k : List Nat) (v : α)
+  | del (k : List Nat)
+  | pop (k : List Nat)
+  | setdefault (k : List Nat) (v : α)
+  | badkey
+  | clear
+  | observe
+  deriving Repr
+
+/-- `m.items[k] = v` on the canonical entry list (sorted by key) -/
+def mapPut {α : Type} (k : List Nat) (v : α) : List (List Nat × α) → List (List Nat × α)
+  | [] => [(k, v)]
+  | e :: rest =>
+    if k = e.1 then (k, v) :: rest
+    else if keyLt k e.1 then (k, v) :: e :: rest
+    else e :: mapPut k v rest
+
+/-- one operation on a map: the new canonical entry list and whether the call succeeded
+    (`badkey`: `m[1] = v` / `delete(m, 1)` with a non-string key — type error, map unchanged) -/
+def mapStep {α : Type} (es : List (List Nat × α)) : MapOp α → List (List Nat × α) × Bool
+  | .set k v => (mapPut k v es, true)
+  | .del k => (es.filter (fun e => decide (e.1 ≠ k)), true)
+  | .pop k => (es.filter (fun e => decide (e.1 ≠ k)), true)
+  | .setdefault k v => if es.any (fun e => decide (e.1 = k)) then (es, true) else (mapPut k v es, true)
+  | .badkey => (es, false)
+  | .clear => ([], true)
+  | .observe => (es, true)
+
+def mapRun {α : Type} (es : List (List Nat × α)) (ops : List (MapOp α)) : List (List Nat × α) :=
+  ops.foldl (fun es o => (mapStep es o).1) es
+
+def mapTrace {α : Type} : List (List Nat × α) → List (MapOp α) → List (List (List Nat × α) × Bool)
+  | _, [] => []
+  | es, o :: ops => mapStep es o :: mapTrace (mapStep es o).1 ops
+
+/-- the map value of an entry list -/
+def mapVal (es : List (List Nat × Val)) : Val := .map (es.map (·.1)) (es.map (·.2))
+
+/-- Spec of key membership after a history: the last operation that mentions the key decides -/
+def specHasKey (init : List (List Nat × Val)) (ops : List (MapOp Val)) (k : List Nat) : Bool :=
+  ops.foldl (fun m o =>
+    match o with
+    | .set k' _ => if k' = k then true else m
+    | .del k' => if k' = k then false else m
+    | .pop k' => if k' = k then false else m
+    | .setdefault k' _ => if k' = k then true else m
+    | .badkey => m
+    | .clear => false
+    | .observe => m) (init.any (fun e => decide (e.1 = k)))
+
 end Risor.C15
